@@ -8,6 +8,7 @@ mod net;
 mod rec;
 mod run;
 mod scen;
+mod tamper;
 
 use serde_json::{json, Value};
 use std::io::Write;
